@@ -11,12 +11,15 @@ RULES = {
     'CONFLICT-RAISES': '_inform_loop/_inform_asynchronous raise when already bound to a different value; otherwise they bind and '
                        'recurse over upstreams and downstreams',
     'INHERIT': '_set_loop(None)/_set_asynchronous(None) take the value of an upstream; an explicit value goes through _inform_*',
-    'LOOP-USE-ENSURES': 'every node class whose methods dereference self.loop passes ensure_io_loop=True to Stream.__init__ on '
+    'LOOP-USE-ENSURES': 'every node class whose methods dereference self.loop or sleep in a coroutine passes ensure_io_loop=True to Stream.__init__ on '
                         'its constructor chain (MRO-resolved)',
     'CTOR-CHAINS': 'every Stream subclass constructor reaches Stream.__init__ exactly once on every path',
     'THREAD-SITE': 'threading.Thread and IOLoop() are constructed only in get_io_loop, on paths where its argument is falsy, and at '
                    'most once (shared loop)',
     'SCHEDULE-ON-SELF-LOOP': 'node classes schedule only through self.loop, never IOLoop.current()/asyncio.get_event_loop() directly',
+    'OPTIONS-REACH': 'loop= / asynchronous= given to a node constructor (i.e. to the fluent API method) reach Stream.__init__ along the '
+                     'constructor chain - where a conflict with the pipeline raises - except for the classes of OPTIONS_STAY_OK whose '
+                     'keywords belong to the user function',
     'LOOP-FALLBACK': 'Stream.__init__ binds get_io_loop(self.asynchronous) exactly when no loop is known and the mode is decided',
 }
 
@@ -273,6 +276,11 @@ def derefs_loop(fn):
             hits.append(n)
         if isinstance(n, ast.keyword) and n.arg == 'loop' and src(n.value) == 'self.loop':
             hits.append(n.value)
+        # a coroutine of the node that sleeps (gen.sleep / asyncio.sleep) only ever resumes on a running event loop: a node
+        # built without one (plain Stream().rate_limit(dt), emit() called inline) would hang at its first wait
+        if isinstance(n, (ast.Await, ast.Yield)) and isinstance(n.value, ast.Call) and isinstance(n.value.func, ast.Attribute) \
+                and n.value.func.attr == 'sleep' and src(n.value.func.value) in ('gen', 'asyncio', 'tornado.gen'):
+            hits.append(n)
     return hits
 
 
@@ -548,3 +556,102 @@ def check_schedule_on_self_loop(ctx, R):
     if init is not None and any(isinstance(x, ast.Call) and src(x.func) == 'get_io_loop' for x in own_nodes(init.node)):
         R.note('RefCounter() without loop= falls back to get_io_loop() and may start the shared background thread; the only '
                'in-package creator (FromKafkaBatched) passes loop=self.loop')
+
+
+# ----------------------------------------------------------------------------- OPTIONS-REACH
+# classes whose constructor keeps **kwargs for the user function (or takes none) and hands only stream_name on: a loop= given to
+# them is not a request to the pipeline (documented convention: "this is one of a few stream specific kwargs")
+OPTIONS_STAY_OK = {
+    'streamz.core.map': 'keywords are arguments of func', 'streamz.core.starmap': 'keywords are arguments of func',
+    'streamz.core.filter': 'keywords are arguments of predicate', 'streamz.core.accumulate': 'keywords are arguments of func',
+    'streamz.core.map_async': 'keywords are arguments of func', 'streamz.core.slice': 'takes no stream options at all',
+    'streamz.dask.map': 'keywords are arguments of func', 'streamz.dask.starmap': 'keywords are arguments of func',
+    'streamz.dask.accumulate': 'keywords are arguments of func',
+}
+
+
+def _next_init(cls, owner):
+    mro = cls.mro
+    for c in mro[mro.index(owner) + 1:]:
+        if '__init__' in c.methods and c.methods['__init__'].cls is c:
+            return c
+    return None
+
+
+def _open_kwargs(v, kwname):
+    """does the mapping expression hand on whatever stream options the caller put into **kwargs: the dict itself, or the
+    part of it filtered by the parameters of Stream (`{k: v for k, v in kwargs.items() if k in set(signature(Stream).parameters)}`)"""
+    if kwname is None:
+        return False
+    if isinstance(v, ast.Name) and v.id == kwname:
+        return True
+    if isinstance(v, ast.DictComp) and len(v.generators) == 1:
+        g = v.generators[0]
+        if isinstance(g.iter, ast.Call) and isinstance(g.iter.func, ast.Attribute) and g.iter.func.attr == 'items' \
+                and isinstance(g.iter.func.value, ast.Name) and g.iter.func.value.id == kwname and len(g.ifs) == 1:
+            t = g.ifs[0]
+            if isinstance(t, ast.Compare) and len(t.ops) == 1 and isinstance(t.ops[0], ast.In) \
+                    and 'signature(Stream)' in src(t.comparators[0]).replace('core.', ''):
+                return True
+    return False
+
+
+def _options_reach(M, cls, owner, depth=0):
+    """(True | False, why) - do loop= and asynchronous= travel from `owner`'s constructor to Stream.__init__ on every path of
+    every constructor of the chain (symbolic normal forms; helpers spliced; super() resolved on the MRO of cls)"""
+    from ..symexpr import SymEval
+    if owner is M.stream:
+        return True, ''
+    if owner is None or depth > 8:
+        raise AnalysisError('%s: constructor chain does not reach Stream.__init__' % cls.fq)
+    fn = owner.methods.get('__init__')
+    if fn is None or fn.cls is not owner:
+        return _options_reach(M, cls, _next_init(cls, owner), depth + 1)
+    kwname = fn.node.args.kwarg.arg if fn.node.args.kwarg else None
+    params = fn.params() + [a.arg for a in fn.node.args.kwonlyargs]
+    recs = [r for r in SymEval(M, cls, private_only=True).run(fn) if not r.raised]
+    for r in recs:
+        bcs = [c for c, _s, _l in r.calls if isinstance(c, ast.Call) and isinstance(c.func, ast.Attribute) and c.func.attr == '__init__']
+        for c in bcs:
+            for opt in ('loop', 'asynchronous'):
+                ex = [k for k in c.keywords if k.arg == opt]
+                if ex:
+                    v = ex[0].value
+                    given = (isinstance(v, ast.Name) and v.id == opt and opt in params) or (
+                        isinstance(v, ast.Call) and isinstance(v.func, ast.Attribute) and v.func.attr in ('pop', 'get') and v.args
+                        and isinstance(v.args[0], ast.Constant) and v.args[0].value == opt)
+                    if not given:
+                        return False, '%s.__init__ passes %s=%s to its base constructor, not what the caller gave' % (owner.name, opt, src(v)[:40])
+                elif not any(k.arg is None for k in c.keywords):
+                    # (a `**mapping` that is still there after normalisation - the kwargs themselves, a view of them filtered by
+                    # Stream's parameters, a dict filled in a loop, the result of a helper - is given the benefit of the doubt;
+                    # a mapping with visible constant keys has been turned into explicit keywords by now)
+                    return False, '%s.__init__ does not hand %s= on to its base constructor (%s)' % (owner.name, opt, src(c)[:90])
+            fv = c.func.value
+            if isinstance(fv, ast.Call) and src(fv.func) == 'super':
+                tgt = _next_init(cls, owner)
+            else:
+                tgt = M.resolve_name(fn.module, fv)
+            if not isinstance(tgt, Class):
+                raise AnalysisError('%s: base constructor %s cannot be resolved' % (owner.fq, src(fv)))
+            sub, why = _options_reach(M, cls, tgt, depth + 1)
+            if not sub:
+                return False, why
+    return True, ''
+
+
+def check_options_reach(ctx, R):
+    M = ctx.model
+    R.table('OPTIONS_STAY_OK', dict(OPTIONS_STAY_OK))
+    for cls in M.nodes:
+        if cls is M.stream or not cls.module.name.startswith('streamz') or '.tests' in cls.module.name:
+            continue
+        owner = next((c for c in cls.mro if '__init__' in c.methods and c.methods['__init__'].cls is c), None)
+        if owner is None or owner is M.stream:
+            continue
+        con = cls.module.name + '.' + cls.name
+        ok, why = _options_reach(M, cls, owner)
+        R.ob('OPTIONS-REACH', con, 'loop/asynchronous', ok or con in OPTIONS_STAY_OK,
+             'loop= / asynchronous= given to %s never reach Stream.__init__ (%s): an explicit loop or mode that conflicts with the '
+             'pipeline no longer raises, a compatible one is no longer percolated - and the value ends up as a keyword of the '
+             'user callback' % (cls.name, why), '%s:%d' % (cls.file, cls.node.lineno))
